@@ -78,6 +78,10 @@ func init() {
 		if x, ok := args[1].(iface); ok && x.t == nil {
 			return nil
 		}
+		if m := fr.i.mon; m != nil && !m.ownsObject(args[1]) && !harnessFrame(fr) {
+			// memory reachable from the call's inputs is being published to every other goroutine
+			fr.monitorViolation("sync.Pool.Put of an object")
+		}
 		fr.i.pools[p] = append(fr.i.pools[p], args[1])
 		return nil
 	}
